@@ -121,7 +121,7 @@ theorem ipc_run_header (pr : IpcParams P O) (ctx : P) (cont : Bool) (xs buf : By
 theorem ipc_run_message (pr : IpcParams P O) (ctx : P) (size : Nat) (xs buf : Bytes)
     (h1 : buf.length < size) (h2 : buf.length + xs.length ≤ size) :
     runBytes (ipcStep pr) ⟨.message size buf, ctx⟩ xs =
-      if (buf ++ xs).length = size then (messageDone pr ctx (buf ++ xs), [])
+      if (buf ++ xs).length = size then messageDone pr ctx (buf ++ xs)
       else (⟨.message size (buf ++ xs), ctx⟩, []) := by
   induction xs generalizing buf with
   | nil => simp [runBytes]; omega
